@@ -569,3 +569,32 @@ Definition conn_nop (c : nconn) (a : api) (off : Z) (s : list N) : nconn * resul
             let '(st', r, s') := conn_do st1 (mkOp a (Z.to_N v) off) s1 in ((st', Some t), r, s')
       end
   end.
+
+(* ---- which deadline bounds an exchange (conn.go readOperation / writeOperation / ReadBatchWith /
+   ApiVersions): the connDeadline handed to doRequest / waitResponse is installed as BOTH the write
+   deadline of the request and the read deadline of the response on the net.Conn.  ApiVersions —
+   also run implicitly by loadVersions inside the first negotiating call — uses the read deadline,
+   and FALLS BACK TO THE WRITE DEADLINE when no read deadline is set (a producer that only calls
+   SetWriteDeadline).  None = nothing bounds the exchange: a silent peer blocks the call forever. ---- *)
+Inductive side := SRead | SWrite.
+Definition op_side (a : api) : side :=
+  match a with
+  | AProduce | AJoinGroup | AHeartbeat | ALeaveGroup | AOffsetCommit
+  | ACreateTopics | ADeleteTopics | ASaslHandshake | ASaslAuthenticate => SWrite
+  | _ => SRead
+  end.
+Definition deadline_of (rset wset : bool) (a : api) : option side :=
+  match a with
+  | AApiVersions => if rset then Some SRead else if wset then Some SWrite else None
+  | _ => match op_side a with
+         | SRead => if rset then Some SRead else None
+         | SWrite => if wset then Some SWrite else None
+         end
+  end.
+(* the exchange in which a silent peer is met: the implicit ApiVersions one when the operation
+   negotiates and the versions are not loaded yet, the operation's own otherwise *)
+Definition stalled_exchange (loaded : bool) (a : api) : api :=
+  match supported a with
+  | Some _ => if loaded then a else AApiVersions
+  | None => a
+  end.
